@@ -69,8 +69,15 @@ class Harness:
     import mujoco_warp as mjw
 
     self.mj, self.mjw = mujoco, mjw
+    overrides = None
+    if isinstance(xml, (tuple, list)):  # (xml, {"opt.broadphase": "sap_tile", ...}) : MJWarp-only options
+      xml, overrides = xml
     self.mjm = mujoco.MjModel.from_xml_string(xml) if xml.lstrip().startswith("<") else mujoco.MjModel.from_xml_path(xml)
     self.m = mjw.put_model(self.mjm)
+    if overrides:
+      from mujoco_warp._src import io as _io
+
+      _io.override_model(self.m, dict(overrides))
     self.nworld = nworld
     self.ref_nworld = ref_nworld or nworld  # batch size of the reference evaluation (1 = "simulated alone")
     self.ref_shift = ref_shift  # the reference is read at batch position (w + shift) % ref_nworld
@@ -138,6 +145,10 @@ class Harness:
       if k == "step":
         self.set_ctrl(d, [op["c"][str(w)] for w in W])
         mjw.step(m, d)
+      elif k == "stepn":
+        self.set_ctrl(d, [op["c"][str(w)] for w in W])
+        for _ in range(int(op["n"])):
+          mjw.step(m, d)
       elif k == "step12":
         self.set_ctrl(d, [op["c"][str(w)] for w in W])
         mjw.step1(m, d)
@@ -279,13 +290,15 @@ def replay(ctx, h: Harness, beh: List[dict], pid_key: dict, tol: float = 0.0, ch
     # contacts
     con = [h.contacts(h.d, w) for w in W]
     for w in W:
-      if kind in ("step", "step12", "forward"):
+      if kind in ("step", "step12", "forward", "stepn"):
         exp_con = None
         _, dref = h.ref(terms[w], w)
         if kind == "forward":
           continue  # reference contacts after a bare forward are covered by C37's own comparison
         exp_con = h.contacts(dref, (w + h.ref_shift) % h.ref_nworld)
-        if con[w] != exp_con:
+        same = con[w] == exp_con if tol == 0.0 else (
+          [c[:3] for c in con[w]] == [c[:3] for c in exp_con] and all(abs(a[3] - b[3]) <= 10 * tol for a, b in zip(con[w], exp_con)))
+        if not same:
           ctx.violation(dict(pid_key, api=_api(kind), what="contacts differ from the reference"), f"step {k} world {w}: got {con[w][:3]} exp {exp_con[:3]}", where)
           return False
       elif kind in ("reset", "keyarray", "keyscalar"):
@@ -315,7 +328,7 @@ def _sel0(op, h):
 
 
 def _api(kind):
-  return {"reset": "reset_data", "keyarray": "reset_data_keyframe", "keyscalar": "reset_data_keyframe", "copy": "set_state", "step12": "step1;step2"}.get(kind, kind)
+  return {"stepn": "step", "reset": "reset_data", "keyarray": "reset_data_keyframe", "keyscalar": "reset_data_keyframe", "copy": "set_state", "step12": "step1;step2"}.get(kind, kind)
 
 
 def gen_cfg(nworld, nkey, ctrls, maxlevel, ops, record=True, pick="PickRand", props=()):
